@@ -547,3 +547,40 @@ def _dead_path(f, bid, eid, name, did):
                 seen.add(s)
                 work.append((s, 0))
     return False
+
+
+
+def helper_contract(ctx, run, rule="RF-NEG"):
+    """vbi_unham16p combines two table values that are -1 on an uncorrectable byte.  Callers test the
+    *sign of the result*; that is sound only if the two are combined with bitwise OR (optionally
+    after multiplying one by a positive constant): a sum of -1 and 16 * n is non-negative."""
+    from . import ex, flow
+    from .prog import AnalysisBroken
+    cands = [f for f in ctx.prog.funcs if f.name == "vbi_unham16p"]
+    if not cands:
+        raise AnalysisBroken("vbi_unham16p not found")
+    f = cands[0]
+    run.touch(f)
+    ok = None
+    for bid, i in flow.all_events(f):
+        e = f.exprs[i]
+        if e["k"] != "ret" or not e.get("c"):
+            continue
+        j = ex.skip(f, e["c"][0])
+        r = f.exprs[j]
+        while r["k"] == "cast":
+            j = ex.skip(f, r["c"][0])
+            r = f.exprs[j]
+        loads = [n for n in ex.walk(f, j) if f.exprs[n]["k"] == "idx" and "_vbi_hamm8_inv" in ex.pretty(f, n)]
+        if len(loads) < 2:
+            continue
+        ok = r["k"] == "bin" and r["op"] == "|"
+        key = "%s:vbi_unham16p:sign-preserving-combination" % rule
+        if ok:
+            run.holds(rule, key, "the two nibbles are combined with `|`: the result is negative iff one of them is", ex.loc(f, i))
+        else:
+            run.violation(rule, key, "vbi_unham16p combines its two table values with `%s`, not `|`: an uncorrectable first byte (-1) "
+                          "plus a non-zero second nibble gives a non-negative result, so every caller's `< 0` test accepts the "
+                          "damaged byte pair" % (r.get("op") or r["k"]), ex.loc(f, i), witness={"operator": r.get("op")})
+    if ok is None:
+        raise AnalysisBroken("vbi_unham16p: the return of the two combined table values was not found")
